@@ -94,6 +94,21 @@ def pomdpRow (T O : Nat → Nat → List Rat) (pol : List Nat → Nat) (s0 : Nat
 def pomdpRollout (T O : Nat → Nat → List Rat) (pol : List Nat → Nat) (s0 : Nat) (us : List Rat) : List Nat :=
   chainSample (pomdpRow T O pol s0) us
 
+/-- rollout of `CooperativeModel::sampleSR` on one object: the chain position `p = t·n + i` is factor `i` of step `t`; the
+    state of step `t` is `s0` (t = 0) or the `n` outcomes of step `t−1`; the joint action is `pol` of the completed steps -/
+def coopRolloutRow (S A : List Nat) (parents : List ParentSet) (T : List (List (List Rat)))
+    (pol : List Nat → List Nat) (s0 : List Nat) (hist : List Nat) : List Rat :=
+  let n := parents.length
+  let t := hist.length / n
+  let i := hist.length % n
+  let s := if t = 0 then s0 else (hist.drop ((t - 1) * n)).take n
+  let a := pol (hist.take (t * n))
+  (T.getD i []).getD (ddnGetId S A (parents.getD i ⟨[], []⟩) s a) []
+
+def coopRollout (S A : List Nat) (parents : List ParentSet) (T : List (List (List Rat)))
+    (pol : List Nat → List Nat) (s0 : List Nat) (us : List Rat) : List Nat :=
+  chainSample (coopRolloutRow S A parents T pol s0) us
+
 /-! ## gamma-based samplers with the underflow fallback (fixes/C08-8) -/
 
 /-- `sampleDirichletDistribution` with the underflow fallback (fixes/C08-8): `gs` are the plain gamma draws; when
